@@ -31,9 +31,47 @@ type Profile struct {
 	LoudPct      int // % of histories over a storage that returns a value next to the error of a refused lookup
 	RevokePct    int // % of flows in which the storage lets the current refresh token expire
 	OddScopePct  int // % of flows with a refresh whose scope string has empty entries / tabs
+	ReplacePct   int // % of histories over a storage that replaces the userinfo struct it is handed
+	WarmPct      int // % of flows with a wrong-credential attempt right after another client's successful authentication
+	OverlapPct   int // % of flows with a token request that is in flight while another one runs
 }
 
-func confidential(c ClientInfo) bool { return c.Auth == "basic" || c.Auth == "post" || c.Auth == "other" }
+// warmAttack: a client x whose successful authentication precedes the attempt (its credential for
+// the warm-up request), and a credential that does not prove c but is RELATED to what x presented:
+// x's secret shifted across the id boundary when c's id is a prefix of x's (a / a2 / a22), an
+// assertion naming c under x's key id and signature, or any other bad credential.
+func (g *gen) warmAttack(c ClientInfo) (ClientInfo, Cred, Cred, string) {
+	var longer []ClientInfo
+	for _, x := range g.w.Clients {
+		if x.ID != c.ID && strings.HasPrefix(x.ID, c.ID) && confidential(x) && x.Secret != "" {
+			longer = append(longer, x)
+		}
+	}
+	k := g.r.IntN(5)
+	switch {
+	case len(longer) > 0 && k < 3:
+		x := drv.Pick(g.r, longer)
+		return x, legitCred(g.r, x), Cred{Kind: drv.Pick(g.r, []string{"post", "basic"}), ID: c.ID, Sec: x.ID[len(c.ID):] + x.Secret}, "shifted-secret"
+	case k < 4 || c.Auth == "pkjwt":
+		x := g.otherClient(c.ID)
+		if g.r.Bool() { // mostly a private_key_jwt client's key
+			for _, y := range g.w.Clients {
+				if y.Auth == "pkjwt" && y.ID != c.ID && (x.Auth != "pkjwt" || g.r.Bool()) {
+					x = y
+				}
+			}
+		}
+		return x, Cred{Kind: "assertion", Iss: x.ID, Valid: x.Auth == "pkjwt" || true}, Cred{Kind: "assertion", Iss: c.ID, Signer: x.ID, Defect: "signed-by-" + x.ID}, "assertion-signed-by-other-client"
+	default:
+		x := g.otherClient(c.ID)
+		cr, mut := g.badCred(c)
+		return x, legitCred(g.r, x), cr, mut + "-after-warm-up"
+	}
+}
+
+func confidential(c ClientInfo) bool {
+	return c.Auth == "basic" || c.Auth == "post" || c.Auth == "other"
+}
 
 // weakCred: c's own identity without a valid proof (for a public client: another client's id)
 func (g *gen) weakCred(c ClientInfo) (Cred, string) {
@@ -174,20 +212,21 @@ type flow struct {
 	maxAge   string
 	// what the query of the authorization request says (the fields above are what the request
 	// asks for once the Request Object has superseded the query) and the Request Object
-	qURI     string
-	qScopes  []string
-	qNonce   string
-	qMethod  string
-	qChal    string
-	noMethod bool
-	ro       string
-	roURI    string
-	roScopes []string
-	roNonce  string
-	roChal   string
-	roMethod string
-	held     int // twin flows: the code of the first authorization request, kept for later
-	long     bool
+	qURI        string
+	qScopes     []string
+	qNonce      string
+	qMethod     string
+	qChal       string
+	noMethod    bool
+	ro          string
+	roURI       string
+	roScopes    []string
+	roNonce     string
+	roChal      string
+	roMethod    string
+	overlapCode bool
+	held        int // twin flows: the code of the first authorization request, kept for later
+	long        bool
 }
 
 type History struct {
@@ -570,6 +609,13 @@ func (g *gen) newFlow(routerMode int) *flow {
 			plan = append(plan, "code-weak")
 		}
 	}
+	if g.r.Chance(g.p.WarmPct, 100) {
+		plan = append(plan, "code-warm-attack")
+	}
+	if g.r.Chance(g.p.OverlapPct, 200) {
+		plan = append(plan, "code-overlap")
+		f.overlapCode = true
+	}
 	if f.ro == "ok" && f.method != "" && g.r.Chance(3, 4) {
 		plan = append(plan, "code-pkce") // the PKCE parameters travelled (partly) in the Request Object: they are in force
 	}
@@ -579,7 +625,7 @@ func (g *gen) newFlow(routerMode int) *flow {
 			plan = append(plan, "code-fault")
 		}
 	}
-	if !g.r.Chance(1, 10) {
+	if !g.r.Chance(1, 10) && !f.overlapCode {
 		plan = append(plan, "code")
 	}
 	if g.r.Chance(1, 3) {
@@ -610,6 +656,15 @@ func (g *gen) newFlow(routerMode int) *flow {
 	}
 	if nref > 0 && f.cl.Auth == "other" && g.r.Chance(2, 3) {
 		plan = append(plan, "refresh-weak", "refresh")
+	}
+	if nref > 0 && g.r.Chance(g.p.WarmPct, 100) {
+		plan = append(plan, "refresh-warm-attack")
+	}
+	if nref > 0 && g.r.Chance(g.p.OverlapPct, 100) {
+		plan = append(plan, "refresh-overlap")
+		if g.r.Bool() {
+			plan = append(plan, "refresh")
+		}
 	}
 	if nref > 0 && g.r.Chance(g.p.OddScopePct, 100) {
 		plan = append(plan, "refresh-odd-scope", "refresh-verify")
@@ -702,8 +757,20 @@ func (g *gen) honestRefresh(f *flow) Op {
 		o.RT = UnknownBase + g.r.IntN(20)
 		o.Mut = "unknown-rt"
 	}
-	switch g.r.IntN(5) {
+	switch g.r.IntN(6) {
 	case 0, 1: // no scope parameter
+	case 5: // everything but openid - or offline_access alone: the ID token still names the subject
+		offline := false
+		for _, sc := range f.granted {
+			if sc != "openid" {
+				o.Scopes = append(o.Scopes, sc)
+			}
+			offline = offline || sc == "offline_access"
+		}
+		if offline && g.r.Bool() {
+			o.Scopes = []string{"offline_access"}
+		}
+		g.tag("refresh=narrow-without-openid")
 	case 2:
 		o.Scopes = append([]string{}, f.granted...)
 	default:
@@ -803,6 +870,60 @@ func (g *gen) step(f *flow) {
 		o := g.honestCode(f)
 		o.URI, o.Mut = nearMiss(g.r, f.uri), "near-miss-uri"
 		g.settle(f, o, g.do(o))
+	case "code-warm-attack", "refresh-warm-attack":
+		if kind == "refresh-warm-attack" && last(f.rts) == 0 {
+			return
+		}
+		x, warm, cr, mut := g.warmAttack(f.cl)
+		wr := opfix.Legacy // the Legacy router authenticates the client before anything else
+		if g.r.Chance(1, 3) {
+			wr = opfix.Provider
+		}
+		g.do(Op{Router: wr, Kind: "refresh", Cred: warm, RT: UnknownBase + g.r.IntN(20), Mut: "warm-up-" + x.Auth})
+		var o Op
+		if kind == "code-warm-attack" {
+			o = g.honestCode(f)
+		} else {
+			o = g.honestRefresh(f)
+		}
+		o.Cred, o.Mut = cr, mut
+		g.settle(f, o, g.do(o))
+	case "code-overlap", "refresh-overlap":
+		if kind == "refresh-overlap" && last(f.rts) == 0 {
+			return
+		}
+		var a Op
+		if kind == "code-overlap" {
+			a = g.honestCode(f)
+		} else {
+			a = g.honestRefresh(f)
+		}
+		a.Place = "overlap"
+		b := a
+		b.Place = "body"
+		switch k := g.r.IntN(10); {
+		case k < 5: // another client, correctly authenticated, same artefact and parameters
+			b.Cred, b.Mut = legitCred(g.r, g.otherClient(f.cl.ID)), "overlap-foreign-client"
+		case k < 7: // the same request twice
+			b.Cred, b.Mut = legitCred(g.r, f.cl), "overlap-same-client"
+		case k < 8:
+			b.Cred, b.Mut = g.weakCred(f.cl)
+		case k < 9:
+			b.Cred, b.Mut = g.twoIdentities(f.cl)
+		default:
+			b.Cred, b.Mut = g.badCred(f.cl)
+		}
+		if g.r.Chance(1, 5) {
+			b.Router = opfix.Provider + opfix.Legacy - a.Router
+		}
+		a.Mut = "in-flight"
+		g.tag("place=overlap")
+		g.tag("mut=" + b.Mut)
+		oa, ob := g.w.ExecOverlap(a, b)
+		g.h.Ops = append(g.h.Ops, b, a)
+		g.h.Outs = append(g.h.Outs, ob, oa)
+		g.settle(f, b, ob)
+		g.settle(f, a, oa)
 	case "code-weak":
 		o := g.honestCode(f)
 		o.Cred, o.Mut = g.weakCred(f.cl)
@@ -1110,6 +1231,7 @@ func Generate(r drv.Rand, p Profile) (*History, error) {
 	o.LiveGrants = r.Chance(2, 3)
 	o.KeepRT = r.Chance(p.KeepPct, 100)
 	o.NoReqObj = r.Chance(1, 16)
+	o.ReplaceUI = r.Chance(p.ReplacePct, 100)
 	o.Loud = r.Chance(p.LoudPct, 100)
 	if r.Chance(p.OtherAuthPct, 100) {
 		o.AuthOther = map[string]string{}
@@ -1157,6 +1279,9 @@ func Generate(r drv.Rand, p Profile) (*History, error) {
 	}
 	if o.Loud {
 		g.tag("storage=value-with-error")
+	}
+	if o.ReplaceUI {
+		g.tag("userinfo=replace-struct")
 	}
 	for id, m := range o.AuthOther {
 		g.tag("auth_method_other=" + id)
